@@ -1,11 +1,12 @@
 #!/bin/bash
 # usage: trymut.sh <patch.diff> <pid> [tier]   -- run a check against a scratch copy of /repo/src with the patch applied
 set -e
+V="$(cd "$(dirname "$0")/.." && pwd)"
 P="$1"; [ -f "$P" ] || P="/verif/seeded/$1/patch.diff"; P="$(realpath "$P")"; PID="$2"; TIER="${3:-quick}"
 D=$(mktemp -d /var/tmp/mut.XXXXXX)
 cp -r /repo/src "$D/src"
 ( cd "$D" && patch -s -p1 < "$P" )
-cd /verif
+cd "$V"
 set +e
 PYVC_EVIDENCE_DIR="$D/evidence" PYVC_REPO_SRC="$D/src" ./vc check "$PID" --tier "$TIER"
 rc=$?
